@@ -85,9 +85,13 @@ def run(env: Env) -> Outcome:
     out.rule = ("direct (state,tick) pairs + live scripted workflows (retry delays, waiters, fan-out) under random gate schedules; runs snapshotted at a quiet point and resumed from JSON; "
                 "generated resumed states (as generated / in-progress folded into the queue as from_serialized does / backlog beyond the worker limit / fewer workers than "
                 "in-progress rows) rewound by the real rewind_in_progress and compared with the closed form of C03_rewind_exact (driver op rewindspec) and with the model's rewind; "
-                "non-trivial = more than 2 ticks (runs), at least 2 pending invocations on a step (rewinds); distinct by (spec, schedule) / state")
+                "the real in-process server stack (IdleReleaseDecorator over PersistenceDecorator over BasicRuntime, virtual time) on generated idle workflows: idle mark only by an "
+                "announcement, withdrawn by a delivery to the resident run, release only on a mark at least idle_timeout old; "
+                "non-trivial = more than 2 ticks (runs), at least 2 pending invocations on a step (rewinds), an idle mark and a send to the resident run (server); "
+                "distinct by (spec, schedule) / state / case")
     suite.direct_corr(env, out, env.budget(3000, 60000))
     suite.live_runs(env, out, env.budget(400, 8000), [monitors.mon_c03, c03x.mon_c03_runner], extra_specs=suite.load_corpus("C03"))
     _resume_runs(env, out, env.budget(150, 3000))
     c03x.rewind_stream(env, out, env.budget(600, 12000))
+    c03x.server_idle_side(env, out, env.budget(25, 500))
     return out
